@@ -157,6 +157,7 @@ func pointerPlacement(c *vf.Ctx) {
 		cl := &decodeClient{}
 		defer cl.close()
 		aborted := false
+		failures := 0
 		ex := &explore.Explorer{Bound: bound, Stop: func() bool { return aborted || c.DeadlineExceeded() }}
 		ex.Body = func(r *explore.Run) {
 			b := cf.build(r)
@@ -177,7 +178,12 @@ func pointerPlacement(c *vf.Ctx) {
 					return fmt.Sprintf("llmnr.DecodeDomainName / DecodeMessage on %s: the decoding process failed 4 times out of 4 (3 in fresh processes): %s; name offsets %v", desc(), why, offs)
 				})
 				r.ObserveS("nonterminating")
-				aborted = true // one confirmed non-terminating decode is enough; every further one costs up to 80 s
+				// a confirmed hang costs 80 s, a confirmed crash (stack overflow) well under a second: stop this
+				// configuration after the first hang or after 5 crashes; the abort is reported as a cap
+				failures++
+				if strings.HasPrefix(why, "no answer") || failures >= 5 {
+					aborted = true
+				}
 				return
 			}
 			c.Pass("C09/pointer/every-decode-terminates", 1)
